@@ -20,6 +20,7 @@ import (
 	"time"
 
 	gcmn "github.com/dappledger/AnnChain/gemmill/modules/go-common"
+	"github.com/dappledger/AnnChain/gemmill/utils/failpoint"
 )
 
 /* AutoFile usage
@@ -109,6 +110,7 @@ func (af *AutoFile) Write(b []byte) (n int, err error) {
 		}
 	}
 
+	failpoint.Write("autofile", af.Path, nil)
 	n, err = af.file.Write(b)
 	return
 }
